@@ -3,3 +3,4 @@ import DfProps.C10
 import DfProps.C15
 import DfProps.C16
 import DfProps.C17
+import DfProps.C14
